@@ -73,8 +73,146 @@ fn gen_input(rng: &mut Rng, idx: u64, directed: &[(String, Vec<u8>)]) -> (String
     }
 }
 
+/// Runs rspirv-dis on one file and compares exit status, stderr and stdout with the in-process library result.
+#[allow(clippy::too_many_arguments)]
+fn run_one(cfg: &Cfg, r: &mut Report, stage: &str, idx: u64, dir: &std::path::Path, bin: &std::path::Path, label: &str, bytes: &[u8], under_valgrind: bool, sample: bool) {
+    let path = dir.join(format!("in-{}.spv", idx));
+    if std::fs::write(&path, bytes).is_err() {
+        r.inconclusive.push("cannot write input file".into());
+        return;
+    }
+    let rp = || if bytes.len() <= 1 << 20 { crate::util::replay_ref(cfg, stage, idx).set("binary", hex_bytes(bytes)).set("label", label.to_string()) } else { crate::util::replay_ref(cfg, stage, idx).set("label", label.to_string()).set("input_bytes", bytes.len()) };
+    // in-process expectation
+    let expected: Result<(String, bool), crate::util::Panic> = catch(|| match rspirv::dr::load_bytes(bytes) {
+        Ok(m) => (m.disassemble(), true),
+        Err(e) => (format!("{}", e), false),
+    });
+    let out = if under_valgrind {
+        Command::new("valgrind").args(["--quiet", "--error-exitcode=99", "--leak-check=no"]).arg(bin).arg(&path).output()
+    } else {
+        Command::new(bin).arg(&path).output()
+    };
+    let _ = std::fs::remove_file(&path);
+    let out = match out {
+        Ok(o) => o,
+        Err(e) => {
+            r.inconclusive.push(format!("cannot run rspirv-dis: {}", e));
+            return;
+        }
+    };
+    let class = label.split(' ').next().unwrap_or("").split('@').next().unwrap_or("").to_string();
+    let fail = |r: &mut Report, rule: &str, msg: String| {
+        r.violation(format!("C20:{}", rule), format!("{}\ninput ({}): {}", msg, label, hex_bytes(&bytes[..bytes.len().min(200)])), rp());
+    };
+    let code = out.status.code();
+    let stderr = String::from_utf8_lossy(&out.stderr).to_string();
+    if under_valgrind && code == Some(99) {
+        fail(r, "valgrind", format!("memcheck reported errors:\n{}", stderr.lines().take(20).collect::<Vec<_>>().join("\n")));
+        return;
+    }
+    if code != Some(0) {
+        let what = stderr.lines().find(|l| l.contains("panicked")).map(|l| {
+            let loc = l.split(" at ").last().unwrap_or("").trim_end_matches(':');
+            loc.rsplit('/').next().unwrap_or("").split(':').take(2).collect::<Vec<_>>().join(":")
+        }).unwrap_or_default();
+        fail(r, &format!("exit-status:{:?}:{}", code, what), format!("rspirv-dis exited with status {:?}; stderr: {}", code, stderr.lines().take(4).collect::<Vec<_>>().join(" | ")));
+        return;
+    }
+    if !stderr.is_empty() {
+        fail(r, "stderr", format!("rspirv-dis wrote to stderr: {}", stderr.lines().take(4).collect::<Vec<_>>().join(" | ")));
+        return;
+    }
+    let stdout = String::from_utf8_lossy(&out.stdout).to_string();
+    match expected {
+        Err(p) => {
+            fail(r, "library-panics", format!("the library panics on this input in-process ({}), the binary exited 0", p.msg));
+        }
+        Ok((text, ok)) => {
+            if stdout != format!("{}\n", text) {
+                fail(r, if ok { "stdout-disassembly" } else { "stdout-error-message" }, format!("stdout differs from the library result\nstdout: {:?}\nlibrary: {:?}", stdout.chars().take(300).collect::<String>(), text.chars().take(300).collect::<String>()));
+                return;
+            }
+            if !ok && text.contains('\n') {
+                fail(r, "error-message-multiline", format!("the loading error prints several lines: {:?}", text));
+                return;
+            }
+            r.nontrivial(format!("{}:{}{}", class, if ok { "disassembly" } else { "error" }, if under_valgrind { ":memcheck" } else { "" }));
+            if under_valgrind {
+                r.count("valgrind_runs", 1);
+            }
+            r.count(if ok { "disassemblies" } else { "error_messages" }, 1);
+        }
+    }
+    if sample {
+        r.sample(Json::obj().set("label", label.to_string()).set("bytes", bytes.len()).set("stdout_first_line", stdout.lines().next().unwrap_or("").to_string()));
+    }
+}
+
+/// Target sizes (bytes of listing, roughly) of the `big` stage; the last two are input-file sizes beyond 64 MiB.
+const BIG_SIZES: &[usize] = &[300 << 10, 1100 << 10, 2200 << 10, 4500 << 10, 9 << 20, 17 << 20];
+
+/// A module of string-carrying debug instructions whose text mixes 1-, 2-, 3- and 4-byte characters, so that
+/// every fixed byte offset of the listing is likely to fall inside a multi-byte character for some case; or
+/// (class "huge input") a file just beyond 64 MiB / 128 MiB whose last instruction must still be listed.
+fn gen_big(rng: &mut Rng, idx: u64, thorough: bool) -> (String, Vec<u8>) {
+    use crate::gram::{AInst, AOp, K};
+    let mut insts = vec![AInst::named("MemoryModel", None, None, vec![AOp::w(K::AddressingModel, 0), AOp::w(K::MemoryModel, 1)])];
+    let huge = idx % 6 == 5;
+    if huge {
+        // few very long strings: the file size is what matters
+        let total: usize = if thorough && idx % 12 == 11 { (128 << 20) + 4096 } else { (64 << 20) + rng.below(3) * 4 + 16 };
+        let per = 0xFFF0 * 4 - 1;
+        let chunk: String = (0..per).map(|i| (b'a' + (i % 26) as u8) as char).collect();
+        let mut size = 20 + 12;
+        let mut id = 1;
+        while size + per + 9 < total {
+            insts.push(AInst::named("String", None, Some(id), vec![AOp::s(&chunk)]));
+            id += 1;
+            size += per + 1 + 8;
+        }
+        // one filler of exactly the remaining size, so that the last instructions start right at the boundary
+        let remaining_words = (total.saturating_sub(size) / 4).max(3);
+        insts.push(AInst::named("String", None, Some(id), vec![AOp::s(&"r".repeat((remaining_words - 2) * 4 - 1))]));
+        id += 1;
+        // the last instructions sit right at / beyond the size boundary
+        for k in 0..3 {
+            insts.push(AInst::named("String", None, Some(id), vec![AOp::s(&format!("tail-{}-{}", k, "z".repeat(rng.below(9))))]));
+            id += 1;
+        }
+        let (w, _m, _s) = crate::genmod::encode_module(0x0001_0300, 0, id + 1, &insts, None);
+        let b = words_to_bytes(&w);
+        return (format!("huge input of {} MiB + {} bytes", b.len() >> 20, b.len() & 0xfffff), b);
+    }
+    let target = if thorough { BIG_SIZES[(idx / 6) as usize % BIG_SIZES.len()] } else { BIG_SIZES[(idx % 6) as usize % 4] } + rng.below(4096);
+    const ALPHA: &[&str] = &["a", "Z", " ", "\u{e9}", "\u{fc}", "\u{65e5}", "\u{672c}", "\u{8a9e}", "\u{1f600}", "\u{20ac}"];
+    let mut listing = 0usize;
+    let mut id = 1u32;
+    while listing < target {
+        let n = rng.range(1, 200);
+        let mut text = String::new();
+        // an odd ASCII prefix shifts the phase of the multi-byte characters
+        for _ in 0..rng.below(4) {
+            text.push('x');
+        }
+        for _ in 0..n {
+            text.push_str(*rng.pick(ALPHA));
+        }
+        listing += text.len() + 20;
+        let inst = match rng.below(4) {
+            0 => AInst::named("String", None, Some(id), vec![AOp::s(&text)]),
+            1 => AInst::named("Name", None, None, vec![AOp::id(id), AOp::s(&text)]),
+            2 => AInst::named("ModuleProcessed", None, None, vec![AOp::s(&text)]),
+            _ => AInst::named("SourceExtension", None, None, vec![AOp::s(&text)]),
+        };
+        id += 1;
+        insts.push(inst);
+    }
+    let (w, _m, _s) = crate::genmod::encode_module(0x0001_0300, 0, id + 1, &insts, None);
+    (format!("multi-byte listing of about {} KiB", target >> 10), words_to_bytes(&w))
+}
+
 pub fn run(cfg: &Cfg, rep: &mut Report) {
-    rep.rule = "the rspirv-dis binary rebuilt from /repo is run as a process on generated files (empty, 1..19 bytes, valid modules of every kind, 16 structured mutators, directed crash-corpus classes, noise); exit status must be 0, stderr empty, stdout == in-process `load_bytes(..).map(disassemble)` or the Display of the loading error, plus exactly one newline (error case: a single line); a sample of the files is additionally run under valgrind memcheck (--error-exitcode). distinct_nontrivial = distinct (input class, outcome class) pairs".into();
+    rep.rule = "the rspirv-dis binary rebuilt from /repo is run as a process on generated files (empty, 1..19 bytes, valid modules of every kind, 16 structured mutators, directed crash-corpus classes, noise); exit status must be 0, stderr empty, stdout == in-process `load_bytes(..).map(disassemble)` or the Display of the loading error, plus exactly one newline (error case: a single line); a sample of the files is additionally run under valgrind memcheck (--error-exitcode). Stage `big`: listings of 0.3..4.5 MiB (thorough: up to 17 MiB) made of text mixing 1- to 4-byte characters, and input files just beyond 64 MiB (thorough: 128 MiB) whose last instructions must still be listed. distinct_nontrivial = distinct (input class, outcome class) pairs".into();
     let bin = dis_binary();
     if !bin.exists() {
         rep.inconclusive.push(format!("rspirv-dis binary not found at {}", bin.display()));
@@ -95,77 +233,15 @@ pub fn run(cfg: &Cfg, rep: &mut Report) {
     let (dir_ref, bin_ref, directed_ref) = (&dir, &bin, &directed);
     run_stage(cfg, rep, "files", n, |idx, rng, r| {
         let (label, bytes) = gen_input(rng, idx, directed_ref);
-        let path = dir_ref.join(format!("in-{}.spv", idx));
-        if std::fs::write(&path, &bytes).is_err() {
-            r.inconclusive.push("cannot write input file".into());
-            return;
-        }
-        let rp = || crate::util::replay_ref(cfg, "files", idx).set("binary", hex_bytes(&bytes)).set("label", label.clone());
-        // in-process expectation
-        let expected: Result<(String, bool), crate::util::Panic> = catch(|| match rspirv::dr::load_bytes(&bytes) {
-            Ok(m) => (m.disassemble(), true),
-            Err(e) => (format!("{}", e), false),
-        });
         let under_valgrind = have_valgrind && idx % (n / n_valgrind.max(1)).max(1) == 0;
-        let out = if under_valgrind {
-            Command::new("valgrind").args(["--quiet", "--error-exitcode=99", "--leak-check=no"]).arg(bin_ref).arg(&path).output()
-        } else {
-            Command::new(bin_ref).arg(&path).output()
-        };
-        let _ = std::fs::remove_file(&path);
-        let out = match out {
-            Ok(o) => o,
-            Err(e) => {
-                r.inconclusive.push(format!("cannot run rspirv-dis: {}", e));
-                return;
-            }
-        };
-        let class = label.split(' ').next().unwrap_or("").split('@').next().unwrap_or("").to_string();
-        let fail = |r: &mut Report, rule: &str, msg: String| {
-            r.violation(format!("C20:{}", rule), format!("{}\ninput ({}): {}", msg, label, hex_bytes(&bytes[..bytes.len().min(200)])), rp());
-        };
-        let code = out.status.code();
-        let stderr = String::from_utf8_lossy(&out.stderr).to_string();
-        if under_valgrind && code == Some(99) {
-            fail(r, "valgrind", format!("memcheck reported errors:\n{}", stderr.lines().take(20).collect::<Vec<_>>().join("\n")));
-            return;
-        }
-        if code != Some(0) {
-            let what = stderr.lines().find(|l| l.contains("panicked")).map(|l| {
-                let loc = l.split(" at ").last().unwrap_or("").trim_end_matches(':');
-                loc.rsplit('/').next().unwrap_or("").split(':').take(2).collect::<Vec<_>>().join(":")
-            }).unwrap_or_default();
-            fail(r, &format!("exit-status:{:?}:{}", code, what), format!("rspirv-dis exited with status {:?}; stderr: {}", code, stderr.lines().take(4).collect::<Vec<_>>().join(" | ")));
-            return;
-        }
-        if !stderr.is_empty() {
-            fail(r, "stderr", format!("rspirv-dis wrote to stderr: {}", stderr.lines().take(4).collect::<Vec<_>>().join(" | ")));
-            return;
-        }
-        let stdout = String::from_utf8_lossy(&out.stdout).to_string();
-        match expected {
-            Err(p) => {
-                fail(r, "library-panics", format!("the library panics on this input in-process ({}), the binary exited 0", p.msg));
-            }
-            Ok((text, ok)) => {
-                if stdout != format!("{}\n", text) {
-                    fail(r, if ok { "stdout-disassembly" } else { "stdout-error-message" }, format!("stdout differs from the library result\nstdout: {:?}\nlibrary: {:?}", stdout.chars().take(300).collect::<String>(), text.chars().take(300).collect::<String>()));
-                    return;
-                }
-                if !ok && text.contains('\n') {
-                    fail(r, "error-message-multiline", format!("the loading error prints several lines: {:?}", text));
-                    return;
-                }
-                r.nontrivial(format!("{}:{}{}", class, if ok { "disassembly" } else { "error" }, if under_valgrind { ":memcheck" } else { "" }));
-                if under_valgrind {
-                    r.count("valgrind_runs", 1);
-                }
-                r.count(if ok { "disassemblies" } else { "error_messages" }, 1);
-            }
-        }
-        if idx == 25 || idx == 200 {
-            r.sample(Json::obj().set("label", label.clone()).set("bytes", bytes.len()).set("stdout_first_line", stdout.lines().next().unwrap_or("").to_string()));
-        }
+        run_one(cfg, r, "files", idx, dir_ref, bin_ref, &label, &bytes, under_valgrind, idx == 25 || idx == 200);
+    });
+    // large files and large listings: multi-byte text everywhere, listings of several MiB, inputs beyond 64 MiB
+    let n_big = if cfg.tier_thorough { BIG_SIZES.len() as u64 * 6 } else { 6 };
+    run_stage(cfg, rep, "big", n_big, |idx, rng, r| {
+        let (label, bytes) = gen_big(rng, idx, cfg.tier_thorough);
+        r.seen("big_inputs", label.clone());
+        run_one(cfg, r, "big", idx, dir_ref, bin_ref, &label, &bytes, false, false);
     });
     let _ = std::fs::remove_dir_all(&dir);
 }
